@@ -71,7 +71,7 @@ def run_case(case, ctx):
         finally:
             d.close()
     elif t == "exp":
-        expanding.ExpandingDriver(case, ctx, {"counter": "C14.expanding_counter"}).run()
+        expanding.run_twins(case, ctx, {"counter": "C14.expanding_counter"})
     elif t == "cbloom":
         cbloom.CBloomDriver(case, ctx, {"counter": "C14.cbloom_counter", "stats": "C14.bloom_stats"}).run()
     elif t == "cms":
